@@ -69,6 +69,17 @@ CLAIMED = {
             "Decides: a seek() landing during the committed-offset lookup or the ListOffsets round-trip wins; the policy arms (committed / "
             "unknown / out of range x latest|earliest|none) do what the property states; sentinels -1/-2; reply shape v0..v3; committed "
             "offsets are answered for exactly the partitions asked about. That the broker's offsets are right is not decided."),
+    "C12": ("who-writes table of the in-flight queue, CFG path rule 'every completion of the head entry passes the correlation comparison', "
+            "dominance rules on close(), handler-swallowing analysis of the reader loop, interval analysis of the id wrap",
+            "Decides: queue discipline and write-before-queue without suspension; head-of-queue matching that compares the correlation id "
+            "even for abandoned waiters; mismatch -> fail + close + no pop; close() fails every waiter; every transport failure (incl. EOF "
+            "on a frame boundary) reaches close(); timeouts close the connection; ids stay within int31. Stream fragmentation is delegated "
+            "to StreamReader and not decided."),
+    "C18": ("dominance of the nonce test over all key derivation, must-pass-through of the signature verification on the generator's exit, "
+            "structural def-use table of the RFC 5802 derivations, call-chain order of the escaping",
+            "Decides: the server nonce must extend the client's before anything is derived; login completes only through a full-equality "
+            "comparison of the server signature; every key / proof / transcript attribute has the single RFC 5802 definition, recomputed "
+            "per login from this exchange's salt and iteration count; '=' is escaped before ','. HMAC/PBKDF2 values are not decided."),
 }
 
 NA = {
